@@ -5,6 +5,15 @@
 // The function text is extracted from /repo on every run and compiled verbatim (helpers it calls are pulled in
 // automatically); the channel, the formatter and the file are stubs with symbolic outcomes and a ghost trace.
 #![allow(dead_code, unused_variables, unused_macros, static_mut_refs, unused_imports, unused_mut)]
+// `tracing::level!(..)` written with its path by an edit keeps compiling (log statements have no effect on the checks)
+pub mod tracing {
+    macro_rules! trace { ($($t:tt)*) => { () } }
+    macro_rules! debug { ($($t:tt)*) => { () } }
+    macro_rules! info { ($($t:tt)*) => { () } }
+    macro_rules! warn_ { ($($t:tt)*) => { () } }
+    macro_rules! error { ($($t:tt)*) => { () } }
+    pub(crate) use {trace, debug, info, warn_ as warn, error};
+}
 use std::future::{ready, Ready};
 macro_rules! warn { ($($t:tt)*) => { () } }
 macro_rules! info { ($($t:tt)*) => { () } }
@@ -51,6 +60,8 @@ impl Receiver<Option<Arc<ContextProps>>> {
 pub struct Line { pub id: u8, pub crlf: bool }
 impl std::ops::AddAssign<&str> for Line { fn add_assign(&mut self, s: &str) { if s.len() == 2 { self.crlf = true; } } }
 impl Line { pub fn as_bytes(&self) -> LineBytes { LineBytes { id: self.id, crlf: self.crlf } } pub fn push_str(&mut self, s: &str) { if s.len() == 2 { self.crlf = true; } } }
+/// helper functions introduced by an edit may name the type of a formatted line
+type String = Line;
 pub struct LineBytes { pub id: u8, pub crlf: bool }
 pub trait Formater: Send + Sync { fn to_string(&self, e: Arc<ContextProps>) -> Result<Line, Error>; }
 pub struct Fmt(pub u8);
